@@ -22,19 +22,26 @@ func (ex *Exec) safety(fr *Frame, kind string, pos token.Pos, pc, goal *Term) {
 // ---------------------------------------------------------------- memory
 
 func (ex *Exec) assumeWF(st *State, pc *Term, v Value) {
+	less := func(t *Term) *Term {
+		if pc.IsTrue() || true {
+			// allocation facts are unconditional properties of well-formed heaps
+			noteLess(t, st.next)
+		}
+		return ULt(t, st.next)
+	}
 	switch x := v.(type) {
 	case VSlice:
 		b := C64(int64(SizeBound))
-		ex.assume(pc, And(SLe(C64(0), x.Len), SLe(x.Len, x.Cap), SLe(x.Cap, b), SLe(C64(0), x.Off), SLe(x.Off, b), ULt(x.Arr, st.next),
+		ex.assume(pc, And(SLe(C64(0), x.Len), SLe(x.Len, x.Cap), SLe(x.Cap, b), SLe(C64(0), x.Off), SLe(x.Off, b), less(x.Arr),
 			Implies(Eq(x.Arr, C64(0)), Eq(x.Cap, C64(0)))))
 	case VPtr:
 		if x.T != nil {
-			ex.assume(pc, ULt(x.T, st.next))
+			ex.assume(pc, less(x.T))
 		}
 	case VMap:
-		ex.assume(pc, ULt(x.T, st.next))
+		ex.assume(pc, less(x.T))
 	case VIface:
-		ex.assume(pc, ULt(x.Pay, st.next))
+		ex.assume(pc, less(x.Pay))
 	case VStruct:
 		for _, f := range x.F {
 			ex.assumeWF(st, pc, f)
